@@ -323,10 +323,42 @@ def install_derivations(ex):
                 labels.append('*%d' % n.as_long())
                 terms.append(bits(la, lo, n.as_long()))
         return one(Arr(derived('kdf16|' + '|'.join(labels), terms, 16, 'kdf16'), 'u8', 16))
+    def kdfn(ex_, p, m, a, func, fr):
+        n = int(m.group(1)) if m.group(1).isdigit() else ex_.const_generics[m.group(1)]
+        kb, _karr = view_bits(ex_, p.st, a[0])
+        labels, terms = [], [kb]
+        lst = ex_.deref_all(p.st, a[1]) if isinstance(a[1], Ref) else a[1]
+        for it in getattr(lst, 'items', ()):
+            la, lo, ll = ex_.bytes_view(p.st, it)
+            ln = z3.simplify(ll)
+            if not z3.is_bv_value(ln):
+                raise Inconclusive('kdfn path element of symbolic length')
+            bs = [z3.simplify(z3.Select(la, lo + bv64(i))) for i in range(ln.as_long())]
+            if all(z3.is_bv_value(b) for b in bs):
+                labels.append(''.join(chr(b.as_long()) for b in bs))
+            else:
+                labels.append('*%d' % ln.as_long())
+                terms.append(bits(la, lo, ln.as_long()))
+        return one(Arr(kdf_bytes('kdfn|' + '|'.join(labels), terms, n), 'u8', n))
+    ex.overrides.insert(0, (re.compile(r'(?:^|::)kdfn::<(\w+)>$'), kdfn))
     ex.overrides.insert(0, (re.compile(r'(?:^|::)generate_chacha20_poly1305_key$'), chacha_key))
     ex.overrides.insert(0, (re.compile(r'(^|::)kdf16$'), kdf16))
     ex.overrides.insert(0, (re.compile(r'(^|::)session_sub_key$'), session_sub_key))
     ex.overrides.insert(0, (re.compile(r'(^|::)hkdfsha1$'), hkdfsha1))
+
+
+def kdf_fn(name, terms, n):
+    """deterministic (uninterpreted) derivation of n bytes from the terms: the same inputs give the same output on both ends"""
+    f = z3.Function('uf:' + name, *([t.sort() for t in terms] + [z3.BitVecSort(8 * n)]))
+    return f(*terms)
+
+
+def kdf_bytes(name, terms, n):
+    v = kdf_fn(name, terms, n)
+    arr = z3.K(BV64, bvv(0, 8))
+    for i in range(n):
+        arr = z3.Store(arr, bv64(i), z3.Extract(8 * i + 7, 8 * i, v))
+    return arr
 
 
 def cipher_method(variant, kid):
